@@ -146,6 +146,37 @@ class Facts:
                 firsts.append(fd)
         return firsts, [fd for fd in m.field if self.required(fd) and (not fd.HasField("oneof_index") or fd.proto3_optional)]
 
+    def default_nonempty(self, full, _stack=()):
+        """the statement's reading of "the default request populates something of this message": it has a required
+        field / first oneof member that is a scalar or an enum, or a message for which the same holds (descriptors only)"""
+        if full in _stack or full not in self.msgs:
+            return False
+        firsts, req = self.request_fields(full)
+        for fd in firsts + req:
+            if fd.type not in (10, 11):
+                return True
+            if self.default_nonempty(fd.type_name.lstrip("."), _stack + (full,)):
+                return True
+        return False
+
+    def repeated_request_types(self, root, limit=200):
+        """message types with required content that the default request must build MORE THAN ONCE below `root`
+        (sibling fields of one type, a type at two depths); walks the request fields of the descriptors"""
+        uses, todo, steps = {}, [(root, ())], 0
+        while todo and steps < limit:
+            n, stack = todo.pop()
+            steps += 1
+            if n in stack or n not in self.msgs:
+                continue
+            firsts, req = self.request_fields(n)
+            for fd in firsts + req:
+                if fd.type in (10, 11) and not self.is_map(fd):
+                    t = fd.type_name.lstrip(".")
+                    if self.default_nonempty(t):
+                        uses[t] = uses.get(t, 0) + 1
+                    todo.append((t, stack + (n,)))
+        return sorted(t for t, k in uses.items() if k > 1)
+
     def has_request_cycle(self, root):
         """a cycle along fields the default request must descend into (required / first oneof member)"""
         state = {}
@@ -234,6 +265,15 @@ def base_messages(pkg):
                                       {"name": "isbn", "type": "string", "oneof": "key"},
                                       {"name": "title", "type": "string", "oneof": "key", "required": True},
                                       {"name": "number", "type": "int64", "oneof": "key"}]},
+        # one message type used several times in a request tree: as sibling fields (Leg), at two depths (Trip)
+        {"name": "Stop", "fields": [{"name": "name", "type": "string", "required": True},
+                                    {"name": "city", "type": "string", "oneof": "place"}, {"name": "zip", "type": "int32", "oneof": "place"}]},
+        {"name": "Leg", "fields": [{"name": "start", "type": "message", "type_name": P + ".Stop", "required": True},
+                                   {"name": "finish", "type": "message", "type_name": P + ".Stop", "required": True},
+                                   {"name": "minutes", "type": "int32"}]},
+        {"name": "Trip", "fields": [{"name": "origin", "type": "message", "type_name": P + ".Stop", "required": True},
+                                    {"name": "leg", "type": "message", "type_name": P + ".Leg", "required": True},
+                                    {"name": "last", "type": "message", "type_name": P + ".Stop", "required": True}]},
     ]
 
 
@@ -258,7 +298,8 @@ def gen_request_fields(r, pkg, twist=None):
 
     n_req = r.randint(0, 4)
     for _ in range(n_req):
-        k = r.pick(["scalar", "scalar", "enum", "rep_scalar", "rep_enum", "message", "deep", "resource", "shared", "lookup"])
+        k = r.pick(["scalar", "scalar", "enum", "rep_scalar", "rep_enum", "message", "deep", "resource", "shared", "lookup",
+                    "twin", "nested_after", "depths"])
         if k == "scalar":
             fields.append({"name": fname(), "type": r.pick(SCALARS), "required": True})
         elif k == "enum":
@@ -275,6 +316,19 @@ def gen_request_fields(r, pkg, twist=None):
             fields.append({"name": fname(), "type": "message", "type_name": P + ".Publisher", "required": True})
         elif k == "lookup":
             fields.append({"name": fname(), "type": "message", "type_name": P + ".Lookup", "required": True})
+        elif k == "twin":          # sibling required fields of ONE message type that has required fields / a oneof
+            t = P + r.pick([".Author", ".Book", ".Lookup", ".Stop", ".Publisher", ".Leg"])
+            for _i in range(r.pick([2, 2, 3])):
+                fields.append({"name": fname(), "type": "message", "type_name": t, "required": True})
+        elif k == "nested_after":  # a type at top level and again inside a sibling message
+            a, b = r.pick([(".Stop", ".Leg"), (".Author", ".Wrapper"), (".Stop", ".Trip"), (".Leg", ".Trip")])
+            pair = [{"name": fname(), "type": "message", "type_name": P + a, "required": True},
+                    {"name": fname(), "type": "message", "type_name": P + b, "required": True}]
+            if r.maybe():
+                pair.reverse()
+            fields += pair
+        elif k == "depths":        # the same type at two depths below one field
+            fields.append({"name": fname(), "type": "message", "type_name": P + ".Trip", "required": True})
         elif k == "resource":
             f = {"name": fname(r.pick(["name", "parent", "book"])), "type": "string", "required": True}
             f["ref" if r.maybe() else "child_ref"] = "lib.example.com/Book"
@@ -290,7 +344,7 @@ def gen_request_fields(r, pkg, twist=None):
             elif k == "enum":
                 fields.append({"name": fname(), "type": "enum", "type_name": P + ".Color", "oneof": oname, "required": req_member})
             elif k == "message":
-                fields.append({"name": fname(), "type": "message", "type_name": P + r.pick([".Author", ".Wrapper"]), "oneof": oname})
+                fields.append({"name": fname(), "type": "message", "type_name": P + r.pick([".Author", ".Wrapper", ".Stop", ".Leg"]), "oneof": oname})
             else:
                 fields.append({"name": fname(), "type": "message", "type_name": P + ".Plain", "oneof": oname})
     for _ in range(r.randint(0, 3)):   # non-required noise
@@ -741,6 +795,11 @@ def lro_reply(response_type):
     return base64.b64encode(op.SerializeToString()).decode()
 
 
+def self_populating(facts, fd):
+    """a message-typed field whose message has required fields / oneofs of its own to populate"""
+    return fd.type in (10, 11) and not facts.is_map(fd) and facts.default_nonempty(fd.type_name.lstrip("."))
+
+
 def check_present(facts, full, dyn, path=""):
     """oracle: required fields and one member of each real oneof are populated in the decoded request `dyn`
     (a dynamic message under the INPUT descriptors); returns [(key, description)]"""
@@ -756,8 +815,12 @@ def check_present(facts, full, dyn, path=""):
         else:
             ok = val != type(val)()
         if not ok:
-            if fd.type in (10, 11):
-                key = "required-message-field-unset"
+            if fd.type in (10, 11) and self_populating(facts, fd):
+                # the field's message has required content of its own, so default request construction is said to build it
+                # (model: request_has_every_required_path); e.g. the second field of one message type in a request
+                key = "required-field-unpopulated"
+            elif fd.type in (10, 11):
+                key = "required-message-field-unset"        # known finding: a message without required content of its own
             elif fd.proto3_optional:
                 key = "required-proto3-optional-unset"      # regression key (fixed by 1704548)
             else:
@@ -773,7 +836,7 @@ def check_present(facts, full, dyn, path=""):
         seen.add(o)
         which = dyn.WhichOneof(o)
         if which is None:
-            key = "oneof-first-member-message-unset" if fd.type in (10, 11) else "oneof-unset"
+            key = "oneof-first-member-message-unset" if (fd.type in (10, 11) and not self_populating(facts, fd)) else "oneof-unset"
             out.append((key, f"no member of oneof {path}{o} of {full} is populated"))
         else:
             sub = m.field[[x.name for x in m.field].index(which)]
@@ -1016,6 +1079,9 @@ def run_api(ctx, r, spec, label):
             ctx.case({"api": label, "rpc": me["name"], "form": form, "async": k[2], "twist": me.get("twist")},
                      distinct_key=[json.dumps(spec, sort_keys=True), ss["name"], me["name"], k[2], e.get("file")])
             ctx.count("calling_form", form + (":async" if k[2] else ":sync"))
+            if me["input"].lstrip(".") in facts.msgs:
+                ctx.count("request_tree", "a message type with required content is built twice or more"
+                          if facts.repeated_request_types(me["input"].lstrip(".")) else "every such type built at most once")
             if me.get("twist"):
                 ctx.count("twist", me["twist"])
             path = f"{SDIR}/{e.get('file')}"
@@ -1355,7 +1421,9 @@ def load_corpus():
 def run(ctx):
     ctx.rule = ("APIs over the quantifier: 1..3 services x 2..6 RPCs of every calling form (unary, void, paged, LRO, LRO->Empty, "
                 "server/client/bidi streaming) x request messages with 0..4 required fields of every type (15 scalar kinds, enums, "
-                "repeated scalars/enums, messages 1..3 deep, shared-file messages, resource references), 0..2 oneofs, non-required noise "
+                "repeated scalars/enums, messages 1..3 deep, shared-file messages, resource references; one message type with required "
+                "fields / a oneof used twice or more in a request tree: sibling fields, nested after top level, at two depths, as "
+                "first member of two oneofs), 0..2 oneofs, non-required noise "
                 "(maps, optional, repeated messages), requests from other packages (google.iam.v1, google.protobuf.Empty), flattened "
                 "signatures, transports grpc | grpc+rest | rest; one case = one emitted sample; distinct by (API spec, service, rpc, "
                 "sync/async, file); every case is non-trivial (a sample is compiled, executed against the loopback server and checked)")
@@ -1425,7 +1493,8 @@ CLAIM = dict(
           "format; region tags pairwise distinct under the stated no-underscore hypothesis (counterexample proved and replayed); FULL "
           "segment/full_snippet = the lines strictly between the START and END tag lines; the four inner segments are ordered and "
           "contiguous when the markers appear as the template emits them (void-sample counterexample); every required scalar/enum "
-          "field gets its non-default mock value, exactly the first member of each real oneof is selected, nothing outside the "
+          "field gets its non-default mock value, every required leaf path of the request type (through required message fields and "
+          "first oneof members, any depth, a message type used any number of times) has an entry in the default request, exactly the first member of each real oneof is selected, nothing outside the "
           "request fields is populated; termination of default request construction under an acyclicity hypothesis and divergence "
           "without it; totality/characterisation of the calling form. Tie: T1 bridge of the four marker regexes; T2 "
           "generate_sample_specs, CallingForm.method_default, generate_request_object, validate_and_transform_request, "
